@@ -252,7 +252,8 @@ impl BytesSerializable for PollMessages {
     }
 
     fn from_bytes(bytes: Bytes) -> Result<Self, IggyError> {
-        if bytes.len() < 29 {
+        // Consumer kind + three identifiers of at least 3 bytes + partition ID, strategy, count, auto commit.
+        if bytes.len() < 28 {
             return Err(IggyError::InvalidCommand);
         }
 
